@@ -39,6 +39,25 @@ static Seed make_seed(const char* name, const char* fmt, int w, int h, Info cons
     s.bytes.assign(b.begin(), b.end());
     return s;
 }
+// GIL's jpeg writer ends every file with its whole 1024-byte buffer, i.e. with up to 1023 uninitialised bytes after the EOI marker
+// (writer_backend<jpeg>::close_device -> empty_buffer writes buffer_size, not buffer_size - free_in_buffer).  No listed property is
+// about that, but the seed must not differ from process to process: it is cut at the true end of the stream.
+static size_t jpeg_true_length(std::vector<unsigned char> const& b)
+{
+    auto bad = [] { throw std::runtime_error("harness: GIL-written jpeg seed has no parsable marker structure"); return size_t(0); };
+    if (b.size() < 4 || b[0] != 0xFF || b[1] != 0xD8) return bad();
+    size_t i = 2;
+    for (;;)                                        // marker segments up to and including the SOS header
+    {
+        if (i + 4 > b.size() || b[i] != 0xFF) return bad();
+        unsigned m = b[i + 1]; size_t len = (size_t(b[i + 2]) << 8) | b[i + 3];
+        i += 2 + len;
+        if (m == 0xDA) break;
+    }
+    for (; i + 1 < b.size(); ++i)                   // entropy-coded data: FF is followed by 00 (stuffing) or RSTn until EOI
+        if (b[i] == 0xFF && b[i + 1] != 0x00 && !(b[i + 1] >= 0xD0 && b[i + 1] <= 0xD7)) return b[i + 1] == 0xD9 ? i + 2 : bad();
+    return bad();
+}
 static Opts lib_opts(vh::Ctx& ctx, int default_mask) { Opts o = opts_from(ctx); o.devmask = int(ctx.B("devmask", default_mask)); return o; }
 
 VH_GROUP(png)
@@ -59,8 +78,17 @@ VH_GROUP(jpeg)
     Opts o = lib_opts(ctx, 6);
     using tag = gil::jpeg_tag;
     gil::image_write_info<tag> info(90);
-    if (ctx.take()) { Seed s = make_seed<tag, gil::gray8_image_t>("jpeg_gray8_8x8", "jpg", 8, 8, info, 1); seed_units<tag, gil::gray8_image_t>(ctx, s, o, false); }
-    if (ctx.take()) { Seed s = make_seed<tag, gil::rgb8_image_t>("jpeg_rgb8_9x7", "jpg", 9, 7, info, 2); seed_units<tag, gil::rgb8_image_t>(ctx, s, o, false); }
+    auto cut = [&](Seed& s) { size_t n = jpeg_true_length(s.bytes); ctx.counters["jpeg_seed_bytes_after_EOI_removed"] += long(s.bytes.size() - n); s.bytes.resize(n); };
+    if (ctx.take()) { Seed s = make_seed<tag, gil::gray8_image_t>("jpeg_gray8_8x8", "jpg", 8, 8, info, 1); cut(s); seed_units<tag, gil::gray8_image_t>(ctx, s, o, false); }
+    if (ctx.take()) { Seed s = make_seed<tag, gil::rgb8_image_t>("jpeg_rgb8_9x7", "jpg", 9, 7, info, 2); cut(s); seed_units<tag, gil::rgb8_image_t>(ctx, s, o, false); }
+    if (ctx.take())
+    {
+        // data after EOI stays in the alphabet, as fixed bytes (the start of another stream) rather than whatever the writer's buffer held
+        Seed s = make_seed<tag, gil::gray8_image_t>("jpeg_gray8_8x8_tail", "jpg", 8, 8, info, 1); cut(s);
+        for (unsigned char c : {0xFF, 0xD8, 0xFF, 0xE0, 0x00, 0x10, 0x4A, 0x46, 0x49, 0x46, 0x00, 0xFF}) s.bytes.push_back(c);
+        ++ctx.witness["jpeg_seed_with_trailing_bytes"];
+        seed_units<tag, gil::gray8_image_t>(ctx, s, o, false);
+    }
 }
 VH_GROUP(tiff)
 {
